@@ -37,6 +37,9 @@ def bounds(tier):
             'extra scenarios': 'path decoders: 0..3 lookups and a lookup whose first chunk was dropped; string users: id '
                                'defined / undefined / zero; name records with / without their data record; vmfault with 0..2 '
                                'nested real-fault records of each kind; sampler with / without header and data records',
+            'arbitrary tables': 'every decoder, START..END pair and single record, with the four parser tables in an arbitrary '
+                                'pre-state: each of up to 3 distinct keys consulted per table is bound or not, pids free 32-bit, '
+                                'names from 3 representatives (one empty)',
             'words': 'all four words of every event free 64-bit (strings: 3 free bytes)'}
 
 
@@ -55,6 +58,10 @@ def structures(tier):
             if tier == 'quick' and sweep.weight({'name': n}) > 1 and sc in ('all', 'foreign-inside', 'nested'):
                 continue        # decoders with hundreds of paths per scenario: the remaining scenarios run in thorough
             sts.append({'name': n, 'sc': sc})
+    for n in names:
+        # one step from an arbitrary state of the parser tables (threads_pids, pids_names, tids_names, global_strings)
+        sts.append({'name': n, 'sc': 'pair', 'pre': True})
+        sts.append({'name': n, 'sc': 'none', 'pre': True})
     for n in c08.path_decoders():
         for k in (0, 1, 2, 3):
             sts.append({'name': n, 'sc': 'lookups', 'k': k})
@@ -212,7 +219,7 @@ def label_of(st):
         sc = 'nested=' + ('+'.join(x.replace('RealFaultAddress', '') for x in st['nested']) or 'none')
     elif sc == 'sampler':
         sc = 'sampler-hdr%d-data%d-thd%d' % (st['hdr'], st['nd'], st['thd'])
-    return 'C07/%s/%s' % (st['name'], sc)
+    return 'C07/%s/%s%s' % (st['name'], sc, '/arbitrary-tables' if st.get('pre') else '')
 
 
 def _safe(e):
@@ -266,8 +273,21 @@ def run(ctx, st):
     if st['sc'] == 'long':
         return run_long(ctx, st)
     evs, _ = scenario_events(ctx, st)
-    p = _parser(ctx)
     L = label_of(st)
+    if st.get('pre'):
+        tabs = sweep.havoc_tables(ctx)
+        p = sweep.parser_on(tabs)
+        if not ctx.symbolic:
+            # concrete run: first find out which part of the pre-state is consulted, then judge the run on real dicts
+            # holding exactly those entries
+            try:
+                for t in p.feed_generator(iter(evs)):
+                    str(t)
+            except Exception:       # noqa
+                pass
+            p = sweep.parser_on({n: dict(t.initial) for n, t in tabs.items()})
+    else:
+        p = _parser(ctx)
     texts = []
     try:
         for t in p.feed_generator(iter(evs)):
